@@ -26,12 +26,12 @@ def _wire_floor(scale):
     return f
 
 
-_quick_floor = {"verified": 3000, "short_sends": 200, "short_recvs": 200, "@classes": 100,
+_quick_floor = {"fanout_deliveries_verified": 5000, "fanout_cases": 128, "@class:fanout/*": 30, "verified": 3000, "short_sends": 200, "short_recvs": 200, "@classes": 100,
                 "verified_ws": 300, "verified_sockfd": 300, "verified_inproc": 100, "verified_tcp": 300, "verified_ipc": 300,
                 "ws_fragmented_msgs": 50, "verified_aio_form": 200, "extra_probes": 1000,
                 "@class:*/busbus/*": 5, "@class:*/xsurvxresp/*": 5}
 _quick_floor.update(_wire_floor(1))
-_thorough_floor = {"verified": 30000, "short_sends": 2000, "short_recvs": 2000, "@classes": 150,
+_thorough_floor = {"fanout_deliveries_verified": 100000, "@class:fanout/*": 60, "verified": 30000, "short_sends": 2000, "short_recvs": 2000, "@classes": 150,
                    "@class:*/busbus/*": 10, "@class:*/xsurvxresp/*": 10}
 _thorough_floor.update(_wire_floor(8))
 
@@ -44,12 +44,14 @@ SPEC = dict(
     assumptions=["loopback kernel sockets", "interposed sendmsg/send/writev/readv are the only stream I/O calls of the posix platform layer"],
     quick=dict(runs=[R("c01_integrity", "asan", 8, 0, "cuts", 600),
                      R("c01_integrity", "asan", 8, 60, "sampled", 600),
-                     R("c01_integrity", "asan", 8, 70, "wire", 600)],
+                     R("c01_integrity", "asan", 8, 70, "wire", 600),
+                     R("c01_integrity", "asan", 2, 64, "fanout", 600)],
                floor=_quick_floor,
                eval_key="verified"),
     thorough=dict(runs=[R("c01_integrity", "asan", 16, 0, "cuts", 3000),
                         R("c01_integrity", "asan", 16, 400, "sampled", 3000),
                         R("c01_integrity", "asan", 16, 300, "wire", 3000),
+                        R("c01_integrity", "asan", 4, 256, "fanout", 3000),
                         R("c01_integrity", "tsan", 8, 60, "sampled", 3000),
                         # valgrind memcheck lines: only memcheck reports are judged (see vf FLAVORS["vg"])
                         R("c01_integrity", "vg", 8, 6, "sampled", 1800),
